@@ -76,6 +76,7 @@ def _block(cbormodel, refenc, cose_alg, kid, sig):
 
 def h_actions(exclude=()):
     SS, CS, stubs = _env()
+    from props import c04
     from props.c04 import ALGS
     from suit_generator.suit_sign_script_base import SignatureAlreadyPresentActions, SuitSignAlgorithms
 
@@ -118,7 +119,7 @@ def h_actions(exclude=()):
         action = SignatureAlreadyPresentActions.ERROR if act == 0 else (SignatureAlreadyPresentActions.SKIP if act == 1 else SignatureAlreadyPresentActions.REMOVE_OLD)
         raised = False
         try:
-            CS.main(sign_subcommand="single-level", input_envelope="in.suit", output_envelope="out.suit", key_name="kn", key_id=kid, alg=SuitSignAlgorithms[alg_member], context=None, sign_script="s.py", kms_script="k.py", already_signed_action=action)
+            CS.main(sign_subcommand="single-level", input_envelope="in.suit", output_envelope="out.suit", key_name="kn", key_id=kid, alg=SuitSignAlgorithms[alg_member], context=None, sign_script=c04.SIGN_SCRIPT(), kms_script=c04.KMS_SCRIPT(), already_signed_action=action)
         except Exception:
             raised = True
         out = fs.written("out.suit")
@@ -253,8 +254,12 @@ def build_config(shape, flags):
         f = flags[node]
         c = {}
         if top:
-            c["sign-script"] = "s.py"
-            c["kms-script"] = "k.py"
+            from props import c04
+
+            c["sign-script"] = c04.SIGN_SCRIPT()
+            c["kms-script"] = c04.KMS_SCRIPT()
+        # every node has its own KMS context (key directory): the KMS that signs a node must have been initialised with it
+        c["context"] = "ctx-" + node
         if f["has_key"]:
             c["key-name"] = NODE_KEYS[node][0]
             c["key-id"] = NODE_KEYS[node][1]
@@ -339,7 +344,7 @@ def h_recursive(shape="one", mode="full", root_sel=None, exclude=()):
             ok = raised is None and out == exp_bytes and len(signs) == len(exp_calls)
             if ok:
                 for s, (node, kname, alg, tbs) in zip(signs, exp_calls):
-                    ok = ok and s[2] == kname and s[3] == alg and s[1] == tbs
+                    ok = ok and s[2] == kname and s[3] == alg and s[1] == tbs and s[4] == "ctx-" + node and s[5] == "ctx-" + node
         return chx.conclude(ok, flags=flags, raised=raised, status=status)
 
     return harness
@@ -437,7 +442,12 @@ def replay(obligation, params, cex):
             cfg = build_config(shape, flags)
             cfg["sign-script"] = os.path.join(REPO, "ncs", "sign_script.py")
             cfg["kms-script"] = os.path.join(REPO, "ncs", "basic_kms.py")
-            cfg["context"] = d
+            def setctx(c):
+                c["context"] = d
+                for ch in (c.get("dependencies") or {}).values():
+                    setctx(ch)
+
+            setctx(cfg)
             fin, fout, fcfg = os.path.join(d, "rin.suit"), os.path.join(d, "rout.suit"), os.path.join(d, "cfg.json")
             open(fin, "wb").write(inb)
             json.dump(cfg, open(fcfg, "w"))
